@@ -34,7 +34,7 @@ def hist(prop, focus=None, q=400, t=20000, s=1500):
 
 
 HOOK_COMMITS = ['8b60f71', 'c4143bc']
-FIX_COMMITS = ['36808c6 (C09)', '9968ae8 (C19)', '4e44fa6 (C04)', '1c752d6 (C02)', '0ec6acc (C18)', 'a3c0a98 (C20)', 'be6e20c (C16)', '839495b (C07)']
+FIX_COMMITS = ['972e64a (C01)', '36808c6 (C09)', '9968ae8 (C19)', '4e44fa6 (C04)', '1c752d6 (C02)', '0ec6acc (C18)', 'a3c0a98 (C20)', 'be6e20c (C16)', '839495b (C07)']
 NOT_YET = {}
 
 LEVEL_NOTE = ('Trusted: Lean kernel + axioms propext/Classical.choice/Quot.sound; the hand-written model (lean/Esc) and the '
@@ -87,14 +87,15 @@ def c16_safe_monitor(case_line, result):
 PROPS = {
     'C01': dict(level='proof', module='EscProofs.P.C01', streams=hist('C01'),
                 technique='Lean 4 theorem over an executable model (journal soundness by induction over node lists, lifted to histories) + differential correspondence and runtime monitor on the real code',
-                level_text='Theorems C01_scan_partial / C01_history_partial: for every configuration with non-negative grace periods, controller state, view, clocks, '
-                           'ordering and environment responses, along every history with restarts, each terminate/delete call of the model is backed by an eligible node of that '
-                           "scan's view; partial because taint values above 2^63-1-62135596800 are excluded (C01_full_fails proves the full statement false: finding T1). "
-                           'The model is tied to the code by the hist correspondence (projection: removal calls) and the same predicate is monitored on the observed journals.',
+                level_text='Theorems C01_scan / C01_history (in full since the repair of finding T1, fix 972e64a): for every configuration with non-negative grace periods, '
+                           'controller state, view with ANY taint values, clocks, ordering and environment responses, along every history with restarts, each terminate/delete call of the '
+                           "model is backed by an eligible node of that scan's view; C01_unreadable / C01_untainted / C01_cordoned: such nodes are never eligible; "
+                           'C01_T1_witness_repaired: the former witness (taint value 2^63-1) removes nothing now; goAge_wraps_without_guard: why the guard is needed. '
+                           'The model is tied to the code by the hist correspondence (projection: removal calls; taint values incl. int64 extremes and unparsable strings) and the same predicate is monitored on the observed journals.',
                 level_note=LEVEL_NOTE,
                 aspects=['hist:removals'], monitors=['C01'],
-                theorems=['Esc.P.C01_scan_partial', 'Esc.P.C01_history_partial', 'Esc.P.C01_unreadable', 'Esc.P.C01_untainted', 'Esc.P.C01_cordoned',
-                          'Esc.P.C01_full_fails']),
+                theorems=['Esc.P.C01_scan', 'Esc.P.C01_history', 'Esc.P.C01_scan_partial', 'Esc.P.C01_history_partial', 'Esc.P.C01_unreadable', 'Esc.P.C01_untainted',
+                          'Esc.P.C01_cordoned', 'Esc.P.inRange_all', 'Esc.P.C01_T1_witness_repaired', 'Esc.P.goAge_wraps_without_guard']),
     'C02': dict(level='proof', module='EscProofs.P.C02',
                 # the last stream of each tier lets the credentials refresh fail (provider rebuilt inside a cool-down): 5 s of real sleep each
                 streams=dict(quick=[('scenario', ['-dir', '@ROOT/corpus/C02']), ('hist', ['-n', 400, '-scans', 10, '-focus', 'cooldown']),
